@@ -311,6 +311,110 @@ fn run_c16(args: &Args) -> i32 {
     report::finish(&paths, rep, &ev)
 }
 
+fn run_c18(args: &Args) -> i32 {
+    let paths = Paths { verif: args.verif.clone(), repo: args.repo.clone() };
+    let t0 = now_s();
+    let ctx = c18::Ctx { corpus: corpus::load(&args.repo, &args.verif.join("corpus/grammars")), seed: args.seed };
+    if ctx.corpus.is_empty() {
+        eprintln!("harness error: no grammars found under {:?}", args.repo);
+        return 2;
+    }
+    let n = ctx.corpus.len() as u64;
+    let thorough = args.tier == "thorough";
+    // (stream: 0 corpus / 1 generated, histories, with faults) -- fault-free and
+    // fault-injecting configurations are separate batches
+    let plan: Vec<(u64, u64, bool)> = if thorough {
+        vec![(0, scaled(n * 300, args.scale), false), (1, scaled(40_000, args.scale), false), (0, scaled(n * 60, args.scale), true), (1, scaled(8_000, args.scale), true)]
+    } else {
+        vec![(0, scaled(n * 12, args.scale), false), (1, scaled(500, args.scale), false), (0, scaled(n * 3, args.scale), true), (1, scaled(150, args.scale), true)]
+    };
+    let known: std::collections::BTreeSet<String> = report::load_findings(&paths).unwrap_or_default().into_iter().filter(|f| f.property == "C18" && f.status == "known").map(|f| f.key).collect();
+    c18::TOLERATE.with(|t| *t.borrow_mut() = known.clone());
+    let summaries = match pool::fan_out(args.workers, &|w, nw| {
+        let env = make_env(args, w);
+        let v = c18::work(&env, &ctx, w, nw, &plan);
+        cleanup(&env);
+        v
+    }) {
+        Ok(s) => s,
+        Err(e) => {
+            eprintln!("harness error: {e}");
+            return 2;
+        }
+    };
+    let mut merged = Value::Null;
+    for s in &summaries {
+        report::merge(&mut merged, s);
+    }
+    let st = &merged["stats"];
+    let mut violations: Vec<Violation> = merged["violations"].as_array().cloned().unwrap_or_default().iter().filter_map(Violation::from_json).collect();
+    violations.sort_by(|a, b| (a.index, &a.key).cmp(&(b.index, &b.key)));
+    let env = make_env(args, 999);
+    let mut seen: std::collections::BTreeSet<String> = Default::default();
+    let mut minimised = vec![];
+    for mut v in violations {
+        if !seen.insert(v.key.clone()) {
+            continue;
+        }
+        if minimised.len() < 10 {
+            if let Some(case) = c18::Case::from_json(&v.case) {
+                if matches!(c18::replay(&env, &case), Some((k, _)) if k == v.class) {
+                    let m = c18::minimise(&env, &case, &v.class);
+                    v.case = m.to_json();
+                } else {
+                    v.what.push_str(" [WARNING: did not reproduce on re-run]");
+                }
+            }
+        }
+        minimised.push(v);
+    }
+    cleanup(&env);
+    let wall = now_s() - t0;
+    let mut samples = st["samples"].as_array().cloned().unwrap_or_default();
+    samples.sort_by_key(|s| s.to_string());
+    samples.truncate(3);
+    let histories = st["histories"].as_u64().unwrap_or(0);
+    let coverage = json!({
+        "evaluations": histories,
+        "distinct_nontrivial": report::distinct(&st["nontrivial"]),
+        "rule": "one evaluation = one edit/regenerate history of the actions file of one (grammar, settings): <= 8 seeded user operations (delete subsets of generated items incl. single items that split a rule's items, rewrite bodies/signatures/types, add user items, swap, restore a snapshot, break/repair the file) interleaved with regenerations, always ending in regen, regen. Every regeneration is checked (K1 preservation, K2 provenance, K3 exactly-the-missing, K4 no duplicates, K5 idempotence, K6 force = golden, K7 Err leaves bytes unchanged). Distinct by hash of (grammar, settings, edit descriptions); non-trivial = at least one edit preceded a regeneration.",
+        "samples": samples,
+        "histories_skipped_grammar_does_not_compile": st["histories_skipped"],
+        "distinct_histories": report::distinct(&st["distinct"]),
+        "distinct_grammars": report::distinct(&st["grammars"]),
+        "operations_by_kind": st["ops"],
+        "regens_checked": st["regens_checked"], "regens_err": st["regens_err"],
+        "rules_evaluated": st["rules_checked"],
+        "items_preserved_total": st["items_preserved"], "items_appended_total": st["items_appended"],
+        "single_item_deletions": st["split_deletions"],
+        "faults_fired": st["faults_fired"], "torn_actions_file_counted_not_alarmed": st["torn_actions_file"],
+        "compiles": st["compiles"],
+        "runs_per_hour": if wall > 0.0 { (histories as f64 / wall * 3600.0) as u64 } else { 0 },
+        "components": {
+            "real": ["Settings::process_grammar with force(false)/(true) from /repo's working tree", "syn 1.0 / prettyplease 0.1 (same versions as the compiler, shared lock file)", "kernel tmpfs holding the actions file"],
+            "simulated": ["the user who edits the actions file (syn-level and raw-text edits)", "benign and failing I/O faults on regeneration (fault batch only)"],
+            "model": ["ordered list of top-level items, equality = prettyplease normal form of the item"],
+        },
+        "exhaustive": false,
+    });
+    let rep = Report {
+        property: "C18".into(),
+        tier: args.tier.clone(),
+        seed: args.seed,
+        level: "exploration".into(),
+        coverage,
+        assumptions: vec![
+            "item equality is equality of the prettyplease normal form (regeneration is documented to re-print the file); non-doc comments are the documented exception".into(),
+            "the fixed header (use items, Input, Ctx, Token) is never deleted by the simulated user".into(),
+            "a failed write of the actions file may tear it (std::fs::write truncates first): counted, not alarmed -- C18 does not quantify over crash points".into(),
+        ],
+        wall_s: wall,
+        violations: minimised,
+    };
+    let ev = args.evidence.clone().unwrap_or_else(|| args.verif.join("evidence/C18.json"));
+    report::finish(&paths, rep, &ev)
+}
+
 fn run_replay(args: &Args) -> i32 {
     let paths = Paths { verif: args.verif.clone(), repo: args.repo.clone() };
     let _ = &paths;
@@ -364,6 +468,21 @@ fn run_replay(args: &Args) -> i32 {
             }
             None => 2,
         },
+        "C18" => match c18::Case::from_json(&v["case"]) {
+            Some(case) => match c18::replay(&env, &case) {
+                Some((class, what)) => {
+                    println!("VIOLATION property=C18 replay={}", file.display());
+                    println!("  class={class}");
+                    println!("  {what}");
+                    1
+                }
+                None => {
+                    println!("replay: property C18 holds on this history now");
+                    0
+                }
+            },
+            None => 2,
+        },
         _ => {
             eprintln!("harness error: unknown property in replay file");
             2
@@ -378,6 +497,7 @@ fn main() {
     let code = match args.cmd.as_str() {
         "c16" => run_c16(&args),
         "c17" => run_c17(&args),
+        "c18" => run_c18(&args),
         "replay" => run_replay(&args),
         "gen-one" => {
             let ss: u64 = args.file.as_ref().and_then(|f| f.to_string_lossy().parse().ok()).unwrap_or(0);
